@@ -85,6 +85,7 @@ Codes == {0, 1, 7, 255}
 VARIABLES tests, keep, strip, stream, exec
 vars == <<tests, keep, strip, stream, exec>>
 Tri == {"unset", "true", "false"}
+\* tail = "heredoc": the expression is a here-document written over several document lines and goes through the parser
 \* tail = "backslash": the expression, as written in the document, ends in a dangling backslash (harmless for the shell)
 T(p, e, c) == [payload |-> p, err |-> e, code |-> c, tail |-> "none"]
 Short == {<<>>, <<"a">>, <<"LF">>, <<"a", "LF">>}
@@ -99,6 +100,11 @@ Init == /\ exec \in {"md", "cram"}
               /\ keep = "unset" /\ strip = "unset" /\ stream = "stdout"
               /\ \E p \in {<<"a", "LF">>, <<"a">>}, p2 \in {<<>>, <<"a", "LF">>} :
                     tests = <<[T(p, <<>>, 0) EXCEPT !.tail = "backslash"], T(p2, <<>>, 0)>>
+           \/ \* E: the expression is read from a DOCUMENT (real parser): a here-document whose text lines begin with `> `
+              \*    (`$ cat <<EOF` / `> > a` / `> EOF`): the continuation marker is removed once, the rest is verbatim
+              /\ keep = "unset" /\ strip = "unset" /\ stream = "stdout"
+              /\ \E p \in {<<"GT", "SP", "a", "LF">>, <<"GT", "SP", "GT", "SP", "a", "LF">>, <<"SP", "a", "SP", "SP", "LF">>} :
+                    tests = <<[T(p, <<>>, 0) EXCEPT !.tail = "heredoc"]>>
            \/ \* C: two test cases (the first one possibly without final newline), exit codes per test case
               /\ keep = "unset" /\ strip = "unset" /\ stream \in {"stdout", "combined"}
               /\ \E p1 \in {<<"a">>, <<"a", "LF">>, <<>>, <<"a", "CR">>}, p2 \in {<<"a", "LF">>, <<"LF">>, <<>>}, c1 \in Codes, c2 \in {0, 255} :
